@@ -851,6 +851,9 @@ func poolGet(fr *Frame, cc *ssa.CallCommon, st *State, pos token.Pos) []Term {
 		vc.declare(a, "(Array Int Int)")
 		vc.assume(fmt.Sprintf("(forall ((j Int)) (! (and (<= 0 (select %s j)) (< (select %s j) 256)) :pattern ((select %s j))))", a, a, a))
 		vc.set(st, comp, fmt.Sprintf("(store %s %s %s)", vc.get(st, comp), r, a))
+		// the buffer is owned (by its backing array) until it is Put back
+		oc := vc.ownedComp()
+		vc.set(st, oc, fmt.Sprintf("(store %s %s true)", vc.get(st, oc), r))
 	case strings.HasPrefix(parts[1], "*"):
 		t := vc.lookupType(pkg, strings.TrimPrefix(parts[1], "*"))
 		if t == nil {
@@ -883,6 +886,15 @@ func poolPut(fr *Frame, cc *ssa.CallCommon, st *State, pos token.Pos) []Term {
 		fr.requireOwned(p, "Put of an object that is not owned (double Put)", pos, st)
 		oc := vc.ownedComp()
 		vc.set(st, oc, fmt.Sprintf("(store %s %s false)", vc.get(st, oc), p))
+	} else if mi, ok := cc.Args[1].(*ssa.MakeInterface); ok && strings.HasPrefix(fr.poolKind(cc.Args[0]), "pool:[]byte") {
+		// a pooled byte buffer goes back once: a second Put of the same backing array would let two
+		// later Gets (possibly on two connections) share it
+		if _, isSlice := mi.X.Type().Underlying().(*types.Slice); isSlice {
+			p := fmt.Sprintf("(sl_ref %s)", fr.val(mi.X).S)
+			fr.requireOwned(p, "Put of a buffer that is not owned (double Put)", pos, st)
+			oc := vc.ownedComp()
+			vc.set(st, oc, fmt.Sprintf("(store %s %s false)", vc.get(st, oc), p))
+		}
 	}
 	return nil
 }
